@@ -24,9 +24,7 @@ var (
 	errInvalidListenerPort = errors.New("invalid listener port")
 	errPacketWriting       = errors.New("failed to write packet")
 	errPathAvailability    = errors.New("no path available")
-	errPathReversal        = errors.New("failed to reverse path")
 	errUnexpectedAddrType  = errors.New("unexpected address type")
-	errUnexpectedPathType  = errors.New("unexpected path type")
 )
 
 type baseConn struct {
@@ -76,7 +74,7 @@ func (c *baseConn) readPkt(b []byte) (int, udp.UDPAddr, snet.DataplanePath, net.
 			continue // ignore non-UDP payload
 		}
 		srcAddr, err := scionLayer.SrcAddr()
-		if err != nil {
+		if err != nil || srcAddr.Type() != addr.HostTypeIP {
 			continue // ignore unexpected address type
 		}
 		remoteAddr := udp.UDPAddr{
@@ -220,25 +218,29 @@ func (c *serverConn) LocalAddr() net.Addr {
 }
 
 func (c *serverConn) ReadFrom(b []byte) (int, net.Addr, error) {
-	n, remoteAddr, path, lastHop, err := c.readPkt(b)
-	if err != nil {
-		return 0, nil, err
+	for {
+		n, remoteAddr, path, lastHop, err := c.readPkt(b)
+		if err != nil {
+			return 0, nil, err
+		}
+		rpath, ok := path.(snet.RawPath)
+		if !ok {
+			continue // ignore packet with unexpected path type
+		}
+		replyPather := snet.DefaultReplyPather{}
+		replyPath, err := replyPather.ReplyPath(rpath)
+		if err != nil {
+			// A packet that cannot be answered must not be reported as a
+			// read error: the QUIC transport would shut down on it.
+			continue
+		}
+		remoteAddrPath := udpAddrPath{
+			addr:    remoteAddr,
+			path:    replyPath,
+			nextHop: lastHop,
+		}
+		return n, remoteAddrPath, nil
 	}
-	rpath, ok := path.(snet.RawPath)
-	if !ok {
-		return 0, nil, errUnexpectedPathType
-	}
-	replyPather := snet.DefaultReplyPather{}
-	replyPath, err := replyPather.ReplyPath(rpath)
-	if err != nil {
-		return 0, nil, errPathReversal
-	}
-	remoteAddrPath := udpAddrPath{
-		addr:    remoteAddr,
-		path:    replyPath,
-		nextHop: lastHop,
-	}
-	return n, remoteAddrPath, err
 }
 
 func (c *serverConn) WriteTo(b []byte, addr net.Addr) (int, error) {
